@@ -3,7 +3,7 @@
 (* byte value, non-UTF-8 content, and lengths at the powers of ten.           *)
 EXTENDS DocAst, IOUtils, TLC
 Thorough == "VERIF_TIER" \in DOMAIN IOEnv /\ IOEnv.VERIF_TIER = "thorough"
-Lmax == IF Thorough THEN 1100 ELSE 300
+Lmax == 1100
 Msg(in, fam) == [i |-> 0, op |-> "message", fam |-> fam, in |-> in]
 LenAt(j) == Msg([data |-> BytesToHex([i \in 1..(j - 1) |-> (i * 31 + j) % 256])], "lengths")
 ByteAt(j) == Msg([data |-> BytesToHex(<<j - 1>>)], "bytes")
